@@ -88,7 +88,12 @@ Clear(s, l) == [s |-> [s EXCEPT !.hn[l] = 0, !.t[l] = -l, !.count[l] = 0], ev |-
 StopVal(k) == CASE k % 3 = 1 -> 100 + k [] k % 3 = 2 -> 0 - (100 + k) [] OTHER -> IF k % 2 = 1 THEN 1 ELSE 0 - 1
 Cut(w, stop) == IF stop > 0 /\ stop <= Len(w) THEN [w |-> SubSeq(w, 1, stop), ret |-> StopVal(stop)]
                 ELSE [w |-> w, ret |-> 0]
-Foreach(s, l, stop) == LET c == Cut(Fwd(s, l), stop) IN [ev |-> c.w, ret |-> c.ret]
+\* er: the visit function takes the visited element out of the list (it is the front by then: every element before
+\* it went the same way) and reuses its memory - the next link must have been read before the visit
+RECURSIVE PopN(_, _, _)
+PopN(s, l, n) == IF n = 0 THEN s ELSE PopN(PopFront(s, l).s, l, n - 1)
+Foreach(s, l, stop, er) == LET c == Cut(Fwd(s, l), stop) IN
+                           [s |-> IF er THEN PopN(s, l, Len(c.w)) ELSE s, ev |-> c.w, ret |-> c.ret]
 
 RECURSIVE Merge(_, _)
 Merge(a, b) == IF a = <<>> THEN b ELSE IF b = <<>> THEN a
@@ -141,7 +146,7 @@ Apply(s, o) ==
       [] o.op = "sort"   -> R3(Sort(s, o.l), 0, <<>>)
       [] o.op = "concat" -> R3(Concat(s, o.d, o.src), 0, <<>>)
       [] o.op = "swap"   -> R3(Swap(s, o.a, o.b), 0, <<>>)
-      [] o.op = "foreach" -> LET r == Foreach(s, o.l, o.stop) IN R3(s, r.ret, r.ev)
+      [] o.op = "foreach" -> LET r == Foreach(s, o.l, o.stop, o.er) IN R3(r.s, r.ret, r.ev)
       [] o.op = "clear"  -> LET r == Clear(s, o.l) IN R3(r.s, 0, r.ev)
       [] o.op = "peek"   -> R3(s, <<Front(s, o.l), Back(s, o.l), s.count[o.l]>>, <<>>)
 
@@ -158,7 +163,9 @@ Contract(o, q, qq, ret, ev) ==
       [] o.op = "sort"   -> IsSortedPermOf(qq[o.l], q[o.l]) /\ Others(q, qq, {o.l})
       [] o.op = "concat" -> qq[o.d] = q[o.d] \o q[o.src] /\ qq[o.src] = <<>> /\ Others(q, qq, {o.d, o.src})
       [] o.op = "swap"   -> qq[o.a] = q[o.b] /\ qq[o.b] = q[o.a] /\ Others(q, qq, {o.a, o.b})
-      [] o.op = "foreach" -> LET c == Cut(q[o.l], o.stop) IN ev = c.w /\ ret = c.ret /\ qq = q
+      [] o.op = "foreach" -> LET c == Cut(q[o.l], o.stop) IN
+                               /\ ev = c.w /\ ret = c.ret
+                               /\ IF o.er THEN qq[o.l] = SubSeq(q[o.l], Len(c.w) + 1, Len(q[o.l])) /\ Others(q, qq, {o.l}) ELSE qq = q
       [] o.op = "clear"  -> /\ NoDup(ev) /\ SeqSet(ev) = SeqSet(q[o.l])
                             /\ qq[o.l] = <<>> /\ Others(q, qq, {o.l})
       [] o.op = "peek"   -> /\ qq = q
@@ -178,7 +185,7 @@ OpSet(s, probes) ==
     \cup {[op |-> "swap", a |-> p[1], b |-> p[2]] : p \in {x \in Lists \X Lists : x[1] <= x[2]}}   \* a = b: swapped with itself
     \cup {[op |-> "clear", l |-> l] : l \in Lists}
     \cup (IF probes THEN
-            UNION {{[op |-> "foreach", l |-> l, stop |-> st] : st \in 0..Len(q[l])} : l \in Lists}
+            UNION {{[op |-> "foreach", l |-> l, stop |-> st, er |-> e] : st \in 0..Len(q[l]), e \in BOOLEAN} : l \in Lists}
             \cup {[op |-> "peek", l |-> l] : l \in Lists}
           ELSE {})
 =============================================================================
